@@ -6,6 +6,12 @@ LEVEL_NOTE = ("Trusted base: CPython 3.12 (/venv/bin/python), eval/tokenize/frac
               "oracles under /verif/vf, and that sfc_models imports from the /repo working tree (asserted at "
               "start, recorded in evidence).")
 CLAIMS = {
+ 'C01': ("offline conservation checker on the exact rational re-solution of the emitted equations: per-currency sum dF + NET == 0 and per-sector ledgers == spec-declared flows; in-situ AddCashFlow wrapper",
+         "Held on K observed models: random topologies (1-3 zones, federations, all government/household/firm forms, deposits, gifts, imports, non-unit rates) built and solved by the real code; identities are exactly zero on the Fraction solution of the emitted text. Topologies outside the spec language are not explored.", "3/C01"),
+ 'C04': ("market-clearing / allocation / pair identities from spec-declared participants on the exact re-solution; bookings through sector ledgers",
+         "Held on K observed models: every goods, labour, money and deposit market of every generated model satisfies demand = sum of declared demanders, supply = demand, suppliers add up, participant = assigned (x cross rate), exactly.", "3/C04"),
+ 'C07': ("valued FX identity, per-currency NET vs declared cross-zone flows and receiver ledgers at XR_src/XR_dst on the exact re-solution; refusal twin without external sector",
+         "Held on K observed multi-currency models with time-varying non-unit rates: exact FX identities and credited amounts; cross-zone specs without an external sector are refused with LogicError and no series.", "3/C07"),
  'C20': ("execute the module written by the real generator; residual monitor on its series, differential vs the in-process solver, header check",
          "Held on K observed blocks: the generated file imports and runs, its series satisfy the block equations (lags from its own k-1, exogenous as supplied) within tolerance, agree with the in-process solver started from the same k=0 values, and its table lists t first and each non-lagged variable once.", "3/C20"),
  'C15': ("one-further-step monitor after accepted steady states (real SolveStep on a deep copy, exogenous frozen), snapshot equality of solver inputs",
